@@ -261,13 +261,18 @@ def git_key(s, k: bytes) -> bytes:
     return s["sec"] + ((b"." + s["sub"]) if s["hs"] else b"") + b"." + k
 
 
-def git_ops(scratch: str, histories):
+def git_ops(scratch: str, histories, initial=None):
     """histories: list of lists of argv tails (after `git config --file F`), bytes.  Every history runs on
-    its own fresh file; -> list of file contents (b"" if the file was never created)."""
+    its own file (fresh, or starting with initial[i]); -> list of file contents (b"" if never created)."""
     if not histories:
         return []
     d = _dir(scratch, "go")
     env = git_env(d)
+    if initial is not None:
+        for i, data in enumerate(initial):
+            if data:
+                with open(os.path.join(d, f"h{i}"), "wb") as f:
+                    f.write(data)
 
     def work(r):
         for i in range(*r):
